@@ -138,6 +138,18 @@ D = {
  'C17-zero-means-none-r4': ('C17', 'pid 0 and uid 0 mean "no process" on every platform (round 4)', 'a root sender outside the PID namespace'),
  'C17-sigchld-table-shortcut': ('C17', 'extract.c starts the table search at the CLD_* rows whenever si_signo == SIGCHLD', 'a SIGCHLD sent by kill / sigqueue / raise: cause Unknown, no process'),
  'C18-unregister-read-then-write': ('C18', 'unregister looks the id up under a read guard that is still held while write() blocks', 'two mutators: one holds the mutex before its barrier\'s first check, the other\'s unregister has incremented a reader slot and blocks on the mutex'),
+ 'C06-dequeue-bounded-retries': ('C06', 'dequeue gives up after SLOTS failed exchanges and reports an empty queue', 'five other modifications of the same queue word inside one dequeue: a send is dropped / recv reports empty with fewer than five outstanding'),
+ 'C06-enqueue-empty-fast-path': ('C06', 'enqueue stores the index with a plain store when it saw an empty word', 'two enqueuers (two threads, or a handler inside a send) both seeing the empty word: the second store wipes the first entry, the slot is lost for good'),
+ 'C07-recycle-guard-dropped-early': ('C07', 'recv hands the slot back through a drop guard bound with `let _ =` (before the take)', 'a full channel and a send landing between the early put-back and the take'),
+ 'C07-dequeue-acquire-on-failure': ('C07', 'dequeue: Acquire moved from the successful exchange to the loads feeding it', 'ABA on a queue word: a dequeuer stalled between load and exchange while the slots go a full round; weak memory only (Miri demonstration)'),
+ 'C08-send-waits-for-slot-in-flight': ('C08', 'send retries while a slot is in neither queue instead of dropping the value', 'a send in a handler that interrupted, on the same thread, a recv/send holding the fifth slot: spins forever'),
+ 'C08-dequeue-all-slots-shortcut': ('C08', 'dequeue does one strong exchange and ignores its result when the word holds all five slots', 'a concurrent dequeue of the same queue in the window: one slot handed out twice, later recv panics'),
+ 'C09-wake-blocking-send-on-plain-iterator': ('C09', 'pipe::wake sends without MSG_DONTWAIT relying on O_NONBLOCK set by register_raw (the iterator\'s socket never passes through it)', 'about 278 undrained wake-ups in one instance\'s pipe: the next delivery blocks in the handler, later actions of the signal never run'),
+ 'C09-tokio-second-question-unanswered': ('C09', 'tokio poll_next answers the second readiness question of one poll with false without touching the socket', 'a stale wake-up byte: the poll consumes it, finds nothing and parks without a waker; later deliveries are never obtained'),
+ 'C10-recv-putback-before-take': ('C10', 'Channel::recv returns the slot through a guard bound with `let _ =`, i.e. before the take', 'a full five-record buffer and a delivery between put-back and take: newer record overwrites the unread one, order broken, later panic'),
+ 'C10-signalonly-load-then-store': ('C10', 'SignalOnly::load: load, early return, then store(false) instead of one compare_exchange', 'two batches of one instance walked by two threads: both see true, one delivery yielded twice'),
+ 'C11-tokio-drained-flag-skips-read': ('C11', 'tokio poll_next: after one successful 1-byte read further questions of the same poll are answered false without a read', 'a stale wake-up byte: Pending comes back with no waker registered, close() never ends the parked stream'),
+ 'C11-global-waking-flag': ('C11', 'pipe::wake skips the write while a process-wide WAKING flag is set by any other wake in progress', 'close() of one instance coinciding with a delivery / wake for another pipe: the close byte is never written, the blocked consumer stays blocked'),
 }
 for name, (prop, change, needs) in D.items():
     d = os.path.join(ROOT, 'seeded', name)
